@@ -349,3 +349,26 @@ def _f12d(pid, cfg, tr, v):
                     if isinstance(d['server'], int) and d['server'] >= 1 and d['server'] not in ids and not d['interrupted']:
                         return True
     return False
+
+
+def _after_events(tr, kinds):
+    a = getattr(tr, 'after', None)
+    if not a:
+        return
+    K = set(a['K'])
+    for f in tr.frames[a['k0']:a['moved'][0]]:
+        for e in f['cev']:
+            if e[0] in kinds and e[1] in K:
+                yield e
+
+
+@trigger('F-18a')
+def _f18a(pid, cfg, tr, v):
+    """between the reported deadlock and the first move of one of its customers a WAITING customer of a node of the knot reneged"""
+    return v[0] == 'R' and v[2] == 96 and any(True for _ in _after_events(tr, ('Renege',)))
+
+
+@trigger('F-18b')
+def _f18b(pid, cfg, tr, v):
+    """between the reported deadlock and the first move of one of its customers a node of the knot had a shift change (new server objects)"""
+    return v[0] == 'R' and v[2] == 96 and any(True for _ in _after_events(tr, ('ShiftChange', 'ServersOn')))
